@@ -63,7 +63,11 @@ func jsonHex(v interface{}) string {
 func offTx(rr *rand.Rand, g chain.GenSpec, n int) string {
 	o := chain.TxOpts{ChainID: g.ChainID, Fee: 10000, Entropy: int64(900000 + n), Proto: true}
 	from := chain.KeyAcct0 + rr.Intn(5)
-	switch rr.Intn(7) {
+	switch rr.Intn(8) {
+	case 7: // an upgrade message naming the ACL owner, signed by a stranger (simulation does not need a valid signature)
+		o.SignWith = chain.Key(from) // the owner's (public) key is named, the signature is someone else's
+		feats := []string{"NCUST:" + fmt.Sprint(40+n%50), "RSCAL:" + fmt.Sprint(45+n%50), "OEDIT:" + fmt.Sprint(50+n%40)}
+		return hex.EncodeToString(chain.BuildTx(chain.MsgUpgrade(chain.Addr(chain.KeyOwner), 1, "FEATURE", feats), chain.Key(chain.KeyOwner), o))
 	case 0:
 		return hex.EncodeToString(chain.BuildTx(chain.MsgSend(chain.Addr(from), chain.Addr(chain.KeyAcct0+5), int64(555+n)), chain.Key(from), o))
 	case 1:
